@@ -361,7 +361,7 @@ func (f *c16Fix) classify(r *c16Req) (class, route, skip string) {
 	const pre = "/api/v1/"
 	unrouted := func() (string, string, string) { return "off unrouted", "unrouted", "" }
 	if !strings.HasPrefix(r.Path, pre) {
-		if strings.HasPrefix(r.Path, "/swagger") || r.Path == "/status" {
+		if strings.HasPrefix(r.Path, "/swagger") || r.Path == "/status" || strings.HasPrefix(r.Path, "/metrics") || strings.HasPrefix(r.Path, "/pprof") {
 			return "", "", "outside-api-group"
 		}
 		return unrouted()
